@@ -9,7 +9,7 @@ import (
 // Arm couples a script generator with an interpreter.
 type Arm struct {
 	Gen func(rng *rand.Rand, seed uint64, tier string) *Script
-	Run func(r *RunCtx, s *Script)
+	Run func(rt *Runtime, r *RunCtx, s *Script)
 }
 
 // Arms by property id.
@@ -160,7 +160,11 @@ func genMixed(prop string) func(rng *rand.Rand, seed uint64, tier string) *Scrip
 	}
 }
 
-func runMixed(r *RunCtx, s *Script) {
+func runMixed(rt *Runtime, r *RunCtx, s *Script) {
+	rt.Bubble(s.WallOffsetS, func() { runMixedIn(r, s) })
+}
+
+func runMixedIn(r *RunCtx, s *Script) *World {
 	w := NewWorld(r, s)
 	for i, name := range TemplateNames {
 		w.Labels[name] = GenesisContractAddr(i)
@@ -169,7 +173,7 @@ func runMixed(r *RunCtx, s *Script) {
 	for i := range s.Ops {
 		w.Exec(i, &s.Ops[i])
 	}
-	// distinct non-trivial cases: (block outcome-class vector) per block is recorded by the block hook
+	return w
 }
 
 func init() {
